@@ -709,8 +709,10 @@ class NetRun:
         want_set = sorted(e["line"] for e in exp.out_set)
         got_set = sorted(got_rest)
         if mism is None and want_set != got_set:
-            missing = [x for x in want_set if x not in got_set]
-            extra = [x for x in got_set if x not in want_set]
+            import collections  # pylint: disable=import-outside-toplevel
+            cw, cg = collections.Counter(want_set), collections.Counter(got_set)
+            missing = sorted((cw - cg).elements())  # multiset difference: a line due twice and sent once is missing once
+            extra = sorted((cg - cw).elements())
             if missing:
                 mism = ("missing", {"line": missing[0], "kind": "desired-set"})
             else:
